@@ -955,10 +955,18 @@ func makeRootPool(rootCAPool [][]byte, rootCADirs []string, hostname string, hos
 // sortHostCmp to sort host list of mirrors.
 func sortHostsCmp(hosts []*clientHost, upstream string) func(i, j int) bool {
 	now := time.Now()
+	// snapshot the backoff times under each host lock, concurrent requests may be updating them
+	backoffLast := make(map[*clientHost]time.Time, len(hosts))
+	for _, h := range hosts {
+		h.mu.Lock()
+		backoffLast[h] = h.backoffLast
+		h.mu.Unlock()
+	}
 	// sort by backoff first, then priority decending, then upstream name last
 	return func(i, j int) bool {
-		if now.Before(hosts[i].backoffLast) || now.Before(hosts[j].backoffLast) {
-			return hosts[i].backoffLast.Before(hosts[j].backoffLast)
+		bi, bj := backoffLast[hosts[i]], backoffLast[hosts[j]]
+		if now.Before(bi) || now.Before(bj) {
+			return bi.Before(bj)
 		}
 		if hosts[i].config.Priority != hosts[j].config.Priority {
 			return hosts[i].config.Priority < hosts[j].config.Priority
